@@ -373,7 +373,7 @@ func maxInt(a, b int) int {
 	}
 	return b
 }
-func minInt(a, b int) int {
+func c18MinInt(a, b int) int {
 	if a < b {
 		return a
 	}
@@ -716,10 +716,10 @@ func c18Random(r *vk.Rng, kind string, small bool) c18Rec {
 		}
 		rec.V = transfer.FileDone{StreamID: c18U64(r), OK: r.Bool(), ErrMsg: c18Text(r, n)}
 	case kResume:
-		idn := c18Len(r, 65535, minInt(soft16, 4096))
+		idn := c18Len(r, 65535, c18MinInt(soft16, 4096))
 		bn := c18Len(r, 1<<20, softBitmap)
 		if small {
-			idn, bn = minInt(idn, soft16), minInt(bn, softBitmap)
+			idn, bn = c18MinInt(idn, soft16), c18MinInt(bn, softBitmap)
 		}
 		v := transfer.FileResumeInfo{FileID: c18Text(r, idn), StreamID: c18U64(r), TotalChunks: c18U32(r), LastVerifiedChunk: c18U32(r), LastVerifiedHash: c18U64(r)}
 		if bn > 0 || r.Bool() {
@@ -729,7 +729,7 @@ func c18Random(r *vk.Rng, kind string, small bool) c18Rec {
 	case kResumeReq:
 		n := c18Len(r, 65535, soft16)
 		if small {
-			n = minInt(n, soft16)
+			n = c18MinInt(n, soft16)
 		}
 		rec.V = transfer.ResumeRequest{FileID: c18Text(r, n), StreamID: c18U64(r)}
 	case kStreams:
@@ -743,7 +743,7 @@ func c18Random(r *vk.Rng, kind string, small bool) c18Rec {
 		}
 		n := c18Len(r, 2000, softItems)
 		if small {
-			n = minInt(n, softItems)
+			n = c18MinInt(n, softItems)
 		}
 		rec.Class = "rand/" + class
 		rec.V = c18Manifest(r, class, n, r.Bool())
@@ -1136,7 +1136,7 @@ func c18RunShard(R *vk.Report, tier string, seed uint64, shard int, caseLog *os.
 			R.Count("writer_rejected")
 			if len(s.buf) > 0 {
 				violate(lbl, fmt.Sprintf("the encoder refused this %s (%v) after it had already written %d bytes of the record to the stream", rec.Kind, err, len(s.buf)), rec,
-					map[string]any{"origin": origin, "bytes_on_the_wire": len(s.buf), "encoded_prefix": hex.EncodeToString(s.buf[:minInt(64, len(s.buf))])})
+					map[string]any{"origin": origin, "bytes_on_the_wire": len(s.buf), "encoded_prefix": hex.EncodeToString(s.buf[:c18MinInt(64, len(s.buf))])})
 				return
 			}
 			st.RejectedClean[lbl]++
@@ -1159,7 +1159,7 @@ func c18RunShard(R *vk.Report, tier string, seed uint64, shard int, caseLog *os.
 		case err != nil:
 			ok = false
 			violate(key, fmt.Sprintf("%s written by the repository's encoder (%d bytes) is rejected by its decoder: %v", rec.Kind, encLen, err), rec,
-				map[string]any{"origin": origin, "encoded_len": encLen, "bytes_left": left, "read_mode": mode, "encoded_prefix": hex.EncodeToString(s.buf[:minInt(64, encLen)])})
+				map[string]any{"origin": origin, "encoded_len": encLen, "bytes_left": left, "read_mode": mode, "encoded_prefix": hex.EncodeToString(s.buf[:c18MinInt(64, encLen)])})
 		case rec.Kind != kHeader && typ != c18TypeByte(rec.Kind):
 			ok = false
 			violate(key, fmt.Sprintf("%s decoded as record type 0x%02x", rec.Kind, typ), rec, map[string]any{"origin": origin, "encoded_len": encLen})
@@ -1491,7 +1491,7 @@ func runC18(e *Env) {
 				}
 				R.Violate(key, fmt.Sprintf("the process died while decoding bytes the repository's encoder had written for this case (address space limited to %d MiB): %s", c18AddrLimit>>20, first),
 					map[string]any{"list": f[1], "index": f[2], "kind": f[3], "class": f[4], "shard": shard, "ordinal_in_shard": f[0]},
-					map[string]any{"stderr_head": string(errTail[:minInt(len(errTail), 1500)])})
+					map[string]any{"stderr_head": string(errTail[:c18MinInt(len(errTail), 1500)])})
 			}
 			mu.Unlock()
 			if timedOut || !goCrash || len(f) < 5 || attempt+1 > c18MaxCrashes {
